@@ -83,8 +83,15 @@ where
     D::Pattern: IntoDimension<Dim = D>,
 {
     let d = p.into_dimension();
+    if d.slice().len() != shape.len() {
+        // an index of the wrong dimensionality designates no element
+        return usize::MAX;
+    }
     let mut f = 0usize;
     for (k, &i) in d.slice().iter().enumerate() {
+        if i >= shape[k] {
+            return usize::MAX;
+        }
         f = f * shape[k] + i;
     }
     f
@@ -445,6 +452,7 @@ fn compare(name: &str, canon: &Table, other: &Table, values: &dyn Fn(usize) -> f
             (Res::Index(a, _), Res::Index(b, _)) => {
                 ensure!(a.is_some() == b.is_some(), "wrong-value", "{}: one representation returned an index, the other an error ({})", n1, name);
                 if let (Some(i), Some(j)) = (a, b) {
+                    ensure!(*i != usize::MAX && *j != usize::MAX, "wrong-value", "{}: a returned index does not designate an element of the array (wrong dimensionality or out of bounds) ({})", n1, name);
                     let (x, y) = (values(*i), values(*j));
                     ensure!(x == y, "wrong-value", "{}: canonical array designates logical element {} = {:e}, the other representation element {} = {:e} ({})", n1, i, x, j, y, name);
                 }
